@@ -144,7 +144,7 @@ func c17R1(p *Prog, r *Report) {
 	nStores := 0
 	var parserCalls []int
 	for _, cs := range pm.AllCalls() {
-		if sel, ok := ast.Unparen(cs.Call.Fun).(*ast.SelectorExpr); ok && exprStr(sel.X) == "parser" {
+		if sel, ok := ast.Unparen(cs.Call.Fun).(*ast.SelectorExpr); ok && namedTypeName(pinfo.TypeOf(sel.X)) == "Parser" {
 			parserCalls = append(parserCalls, cs.V)
 		}
 	}
@@ -181,8 +181,7 @@ func c17R1(p *Prog, r *Report) {
 					if cv.Kind != VCond {
 						continue
 					}
-					s := exprStr(cv.Node)
-					if s == "header.Truncated" {
+					if isHeaderFlag(pinfo, cv.Node, "Truncated") {
 						for _, e := range cv.Succs {
 							if e.Label == LFalse && pm.G.EdgeDominates(append([]Edge{e}, notUDPEdges(pm)...), v.ID) {
 								tg = true
@@ -242,7 +241,7 @@ func c17R1(p *Prog, r *Report) {
 	for _, flag := range []string{"Response", "RecursionAvailable"} {
 		ok := false
 		for _, cv := range pm.G.V {
-			if cv.Kind == VCond && exprStr(cv.Node) == "header."+flag {
+			if cv.Kind == VCond && isHeaderFlag(pinfo, cv.Node, flag) {
 				for _, e := range cv.Succs {
 					if e.Label == LTrue {
 						all := true
@@ -277,7 +276,7 @@ func caseValueGuard(fc *FuncCtx, v int, want int64) bool {
 func notUDPEdges(fc *FuncCtx) []Edge {
 	var out []Edge
 	for _, cv := range fc.G.V {
-		if cv.Kind == VCond && exprStr(cv.Node) == "isUDP" {
+		if cv.Kind == VCond && isBoolParam(fc, cv.Node) {
 			for _, e := range cv.Succs {
 				if e.Label == LFalse {
 					out = append(out, e)
@@ -1023,4 +1022,33 @@ func c17CacheRoles(p *Prog, ins *FuncCtx) *cacheRoles {
 		return nil
 	}
 	return ro
+}
+
+// isHeaderFlag: n is <a dnsmessage.Header value>.<flag>, whatever the variable is called.
+func isHeaderFlag(info *types.Info, n ast.Node, flag string) bool {
+	e, ok := n.(ast.Expr)
+	if !ok {
+		return false
+	}
+	sel, ok := ast.Unparen(e).(*ast.SelectorExpr)
+	return ok && sel.Sel.Name == flag && namedTypeName(info.TypeOf(sel.X)) == "Header"
+}
+
+// isBoolParam: n is a parameter of fc of type bool (the transport flag of parseMsg).
+func isBoolParam(fc *FuncCtx, n ast.Node) bool {
+	e, ok := n.(ast.Expr)
+	if !ok {
+		return false
+	}
+	o := objOf(fc.Info(), e)
+	if o == nil {
+		return false
+	}
+	for i := 0; fc.ParamObj(i) != nil; i++ {
+		if fc.ParamObj(i) == o {
+			b, isB := o.Type().Underlying().(*types.Basic)
+			return isB && b.Kind() == types.Bool
+		}
+	}
+	return false
 }
